@@ -1049,7 +1049,7 @@ class Interp(StmtMixin):
             for k in changed:
                 arr = sx.heap[k]
                 stores = []
-                while z3.is_app_of(arr, z3.Z3_OP_STORE):
+                while z3.is_app_of(arr, z3.Z3_OP_STORE) and not z3.eq(arr, base_heap[k]):
                     stores.append((arr.arg(1), arr.arg(2)))
                     arr = arr.arg(0)
                 if not z3.eq(arr, base_heap[k]):
